@@ -41,6 +41,7 @@ type Contract struct {
 	Monitors []*Monitor
 	Spawns   []spawnDecl
 	Terminates map[int]string
+	Decreases  map[int]*Clause // loop ordinal → integer variant: non-negative whenever the body runs, strictly smaller at every back edge
 	Pure     bool
 	IfaceKey string // for interface method contracts: "pkgpath.Iface.Method"
 	Notes    []string
@@ -236,6 +237,25 @@ func (w *World) parseContractLines(sp *ssa.Package, lines, poss []string) error 
 				return fmt.Errorf("%s: bad loop directive", pos)
 			}
 			tail = strings.TrimSpace(rest[strings.Index(rest, " ")+1:])
+			if strings.HasPrefix(tail, "decreases") {
+				f := strings.Fields(tail)
+				lab := "variant"
+				expr := strings.TrimSpace(strings.TrimPrefix(tail, "decreases"))
+				if m := regexp.MustCompile(`^decreases\[([^\]]*)\]\s+(.*)$`).FindStringSubmatch(tail); m != nil {
+					lab, expr = m[1], m[2]
+				}
+				_ = f
+				cl, err := parseClause("invariant["+lab+"] "+expr, pos)
+				if err != nil {
+					return err
+				}
+				if cur.Decreases == nil {
+					cur.Decreases = map[int]*Clause{}
+				}
+				cur.Decreases[ord] = cl
+				cur.Verify = true
+				continue
+			}
 			if strings.HasPrefix(tail, "terminates_by") {
 				cur.Terminates[ord] = strings.TrimSpace(strings.TrimPrefix(tail, "terminates_by"))
 				continue
